@@ -69,3 +69,27 @@ def lettersFrom (l : Letter) : List Letter :=
   all.drop (letterIndex l) ++ all.take (letterIndex l)
 
 end Crd.Spec
+
+namespace Crd.Spec
+/-! ## diatonic harmonisation by stacked thirds (no chord names copied from crd) -/
+
+/-- size of the interval from scale step `i` up `n` steps, from the mode's step pattern -/
+def stackSize (steps : List Int) (i n : Nat) : Int :=
+  ((List.range n).map fun j => steps.getD ((i + j) % 7) 0).foldl (· + ·) 0
+
+/-- conventional symbol of a triad / seventh chord from its third, fifth (and seventh) sizes -/
+def triadSymbol : Int → Int → Option String
+  | 4, 7 => some "" | 3, 7 => some "m" | 3, 6 => some "dim" | 4, 8 => some "aug" | _, _ => none
+def seventhSymbol : Int → Int → Int → Option String
+  | 4, 7, 11 => some "maj7" | 3, 7, 10 => some "m7" | 4, 7, 10 => some "7" | 3, 6, 10 => some "m7b5" | _, _, _ => none
+
+/-- the chord the harmonisation puts on scale step i -/
+def diatonicSymbol (minor seventh : Bool) (i : Nat) : Option String :=
+  let st := if minor then minorSteps else majorSteps
+  if seventh then seventhSymbol (stackSize st i 2) (stackSize st i 4) (stackSize st i 6)
+  else triadSymbol (stackSize st i 2) (stackSize st i 4)
+
+/-- pitch classes (relative to the tonic) of the scale -/
+def scaleOffsets (minor : Bool) : List Int :=
+  (List.range 7).map fun i => stackSize (if minor then minorSteps else majorSteps) 0 i
+end Crd.Spec
